@@ -54,6 +54,10 @@ def run(rep, tier, seed):
         if rng.random() < 0.3:
             # the terminal is not in its default state before the call (VMIN / VTIME / IXON / ECHOE)
             cs["termios"], cs["vmin"], cs["vtime"] = True, rng.choice([0, 1, 4]), rng.choice([0, 5, 20])
+        if ci % 4 == 1:
+            # between two calls the application itself changes the terminal (raw mode for a full-screen child, echo off
+            # for a password prompt, ...): every call must give back what IT found
+            cs["tmods"] = [rng.choice(["", "raw", "noecho", "", "raw"]) for _ in range(4)]
         sugg = rng.random() < 0.2
         if sugg:
             # a long history line whose autosuggestion wraps below the typed text
@@ -180,7 +184,7 @@ def run(rep, tier, seed):
     rep.rule = ("exit paths {accept-line, accept-and-hold, operate-and-get-next, accept-and-infer-next-history, completed multi-line, interrupt, EOF on "
                 "an empty line, insert-comment, edit-and-execute with a failing editor, panic in a user-registered command, terminal EOF, accept "
                 "from vi-command / with isearch or a menu open} x {emacs, vi-insert, vi-command} x buffer shapes {empty, short, exactly the "
-                "width, wrapped, multi-line, wide, tabs} x helpers {none, hint, menu, isearch} x widths {20, 40, 80} x prompts; non-trivial = "
+                "width, wrapped, multi-line, wide, tabs} x helpers {none, hint, menu, isearch} x widths {20, 40, 80} x prompts, one case in four with the application changing the terminal mode (raw, echo off) between calls; non-trivial = "
                 "distinct (exit, mode, helper, buffer length, width, return/panic) combinations that really left Readline")
     rep.explanation = ("tcgetattr before/after on the pty, and the terminal state (cursor, rows, cursor style, visibility) interpreted from the "
                        "library's output, validated by ExitTrace at every return or panic")
